@@ -128,6 +128,39 @@ def _summary_loop_table(R, sm, rb):
             "the per-app install summary differs from the property's table: %s" % diff[:4])
 
 
+def _bool_sites(bv, c, l, want, depth=0):
+    """Blocks at which the boolean local `l` receives the constant `want`, looking through copies and negations of
+    other boolean locals (`flag = !tmp`, with tmp set to constants in the arms of a match): where the flag becomes true/false.
+    None when some definition is not of that kind (computed value)."""
+    if depth > 4:
+        return None
+    out = []
+    for (bi, si, kind, x) in bv.defs.get(l, []):
+        if bi not in bv.reach0:
+            continue
+        if kind != "rv":
+            return None
+        v = lib.term_const(c, bv._trace_rv(x, None, 0)) if x["k"] in ("use",) and "k" in x.get("o", {}) else None
+        if v in (0, 1):
+            if bool(v) == want:
+                out.append(bi)
+            continue
+        src = None
+        neg = False
+        if x["k"] == "use":
+            src = x["o"].get("m") or x["o"].get("c")
+        elif x["k"] == "unop" and x.get("op") == "Not":
+            src = x["o"].get("m") or x["o"].get("c")
+            neg = True
+        if src is None or src.get("p"):
+            return None
+        sub = _bool_sites(bv, c, src["l"], (not want) if neg else want, depth + 1)
+        if sub is None:
+            return None
+        out += sub
+    return out
+
+
 def nodes_of(S, bv, bi):
     return [n.idx for n in S.nodes if n.ctx.bv is bv and n.bi == bi and n.idx in S.live]
 
@@ -358,16 +391,14 @@ def run(F, R):
     rep = [(bi, t) for bi, t in rv.calls() if t.get("callee_id") in W.by_id and any(lib.callee_is(t2, "wall_duration_since") for _, t2 in W.bv(t["callee_id"]).calls())]
     if R.floor("C18-R4", "report call in the long-running task", len(rep), 1):
         rbi, rt = rep[0]
-        # flag local: bool with const defs only, tested before the report
+        # flag local: a user bool, set from constants (possibly through temporaries / negation), tested before the report
         flag = None
         for l, ds in rv.defs.items():
             if rv.crate.types[rv.locals[l]["t"]]["s"] != "bool" or not rv.locals[l].get("u"):
                 continue
-            vals = []
-            for (bi, si, kind, x) in ds:
-                v = lib.term_const(c, rv._trace_rv(x, None, 0)) if kind == "rv" else None
-                vals.append(v)
-            if vals and all(v in (0, 1) for v in vals) and 1 in vals and 0 in vals:
+            ts_ = _bool_sites(rv, c, l, True)
+            fs_ = _bool_sites(rv, c, l, False)
+            if ts_ and fs_:
                 # the flag that is tested right before the report call
                 ft = rv.trace_local(l)
                 es = [(a, b) for (a, b, tr) in rv.bool_edges(lambda t: t == ft, whole=True) if tr]
@@ -379,10 +410,10 @@ def run(F, R):
             fterm = rv.trace_local(flag)
             flag_true = [(a, b) for (a, b, tr) in rv.bool_edges(lambda t: t == fterm, whole=True) if tr]
             R.check("C18-R4", "report-guarded-by-flag", flag_true and rv.dominated_by_edge(rbi, flag_true), "report only while the flag is set", "the duration is reported without consulting the report-once flag", lib.loc(rv, rbi))
-            sets_true = [bi for (bi, si, kind, x) in rv.defs[flag] if kind == "rv" and lib.term_const(c, rv._trace_rv(x, None, 0)) == 1]
+            sets_true = _bool_sites(rv, c, flag, True)
             comps = rv.sccs()
             inloop = lambda b: any(b in L for L in comps)
-            resets = [bi for (bi, si, kind, x) in rv.defs[flag] if kind == "rv" and lib.term_const(c, rv._trace_rv(x, None, 0)) == 0 and inloop(bi)]
+            resets = [bi for bi in _bool_sites(rv, c, flag, False) if inloop(bi)]
             some_fin = [(a, b) for (a, b, tr) in rv.bool_edges(lambda t: t[0] == "call" and t[1].endswith("Option::<T>::is_some") and "update_finish_time" in lib.apath(t)) if tr]
             eq_os = lib.equal_edges(rv, lambda t: "'target_version'" in lib.apath(t) and "os.version" in lib.apath(t))
             R.check("C18-R4", "flag-set-only-if-finish-time", sets_true and some_fin and all(rv.dominated_by_edge(b, some_fin) for b in sets_true), "flag set only when a finish time is stored", "the flag is set without a stored finish time")
